@@ -306,10 +306,20 @@ fn judge<L: Language + 'static>(mut w: World<L>, rng: &mut Rng, out: &mut CaseOu
     }
     let hook_calls = Rc::new(Cell::new(0usize));
     let hook_failed = Rc::new(Cell::new(false));
+    // the Runner is built either way round (new / default) and may get a root through with_expr after the e-graph was handed over
+    let via_default = rng.chance(1, 2);
+    let with_root = use_runner && w.limit_hint.is_none() && rng.chance(1, 3);
+    let root_text = hook_term(12);
+    if with_root {
+        out.inc("runs_with_root_expr");
+    }
+    let field_reason = Rc::new(std::cell::RefCell::new(String::new()));
+    let fr = field_reason.clone();
     let res = guard(|| {
         if use_runner {
             let (hc, hf) = (hook_calls.clone(), hook_failed.clone());
-            let mut runner: Runner<L, (), (), String> = Runner::new(())
+            let base: Runner<L, (), (), String> = if via_default { Runner::default() } else { Runner::new(()) };
+            let mut runner: Runner<L, (), (), String> = base
                 .with_egraph(std::mem::replace(&mut w.eg, EGraph::default()))
                 .with_iter_limit(iter_limit)
                 .with_node_limit(node_limit)
@@ -327,7 +337,11 @@ fn judge<L: Language + 'static>(mut w: World<L>, rng: &mut Rng, out: &mut CaseOu
                         Ok(())
                     }
                 });
+            if with_root {
+                runner = runner.with_expr(&RecExpr::parse(&root_text).unwrap());
+            }
             let rep = runner.run(&rws);
+            *fr.borrow_mut() = format!("{:?} roots={}", runner.stop_reason, runner.roots.len());
             (rep, runner.egraph)
         } else {
             let (hc, hf) = (hook_calls.clone(), hook_failed.clone());
@@ -366,6 +380,13 @@ fn judge<L: Language + 'static>(mut w: World<L>, rng: &mut Rng, out: &mut CaseOu
     }
     if rep.egraph_nodes != w.eg.total_number_of_nodes() {
         bad!("report-node-count", "{what}: report.egraph_nodes = {} but the e-graph has {} nodes", rep.egraph_nodes, w.eg.total_number_of_nodes());
+    }
+    if use_runner {
+        // the reason is reported twice (Report and the runner's own field): both must say the same
+        let expect = format!("Some({:?}) roots={}", rep.stop_reason, if with_root { 1 } else { 0 });
+        if *field_reason.borrow() != expect {
+            bad!("runner-field-disagrees-with-report", "{what}: the runner says {} after the run", field_reason.borrow());
+        }
     }
     match &rep.stop_reason {
         StopReason::Saturated => {
